@@ -119,7 +119,10 @@ def enc(v):
     if isinstance(v, complex):
         return {'c': [repr(v.real), repr(v.imag)]}
     if isinstance(v, datetime.datetime):
-        return {'dt': [v.year, v.month, v.day, v.hour, v.minute, v.second, v.microsecond]}
+        j = {'dt': [v.year, v.month, v.day, v.hour, v.minute, v.second, v.microsecond]}
+        if type(v) is not datetime.datetime:
+            j['sub'] = 1        # an instance of a datetime subclass (host class)
+        return j
     if isinstance(v, list):
         return [enc(x) for x in v]
     if isinstance(v, tuple):
@@ -144,6 +147,9 @@ def dec(j, env=None):
         if 'c' in j:
             return complex(float(j['c'][0]), float(j['c'][1]))
         if 'dt' in j:
+            if j.get('sub'):
+                from .dates import HostStamp
+                return HostStamp(*j['dt'])
             return datetime.datetime(*j['dt'])
         if 't' in j:
             return tuple(dec(x, env) for x in j['t'])
